@@ -1,4 +1,5 @@
 import VModel.Csv
+import VProofs.Lemmas.CsvSplit
 /-!
 # C19 — Dictionary edits act as documented; dump and replace are lossless
 
@@ -10,25 +11,27 @@ namespace V
 entries' weights at that boundary over all occurrences of their words -/
 theorem C19_replace_delta (m : WModel) (d' : List DictWord) (text : List Char) (b : Nat) :
     specScore (m.replaceDict d') text b - specScore m text b = dictScore d' text b - dictScore m.dict text b := by
-  sorry
+  simp only [specScore, WModel.replaceDict]
+  omega
 
 /-- … and changes nothing else in the model -/
 theorem C19_replace_frame (m : WModel) (d' : List DictWord) :
     (m.replaceDict d').charNgrams = m.charNgrams ∧ (m.replaceDict d').typeNgrams = m.typeNgrams ∧
     (m.replaceDict d').bias = m.bias ∧ (m.replaceDict d').charW = m.charW ∧ (m.replaceDict d').typeW = m.typeW ∧
     (m.replaceDict d').tagModels = m.tagModels ∧ (m.replaceDict d').dict = d' := by
-  sorry
+  simp [WModel.replaceDict]
 
 /-- the `weights` column round-trips for every non-empty list of 32-bit weights (negative numbers included) -/
 theorem C19_weights_roundtrip (ws : List Int) (hne : ws ≠ [])
     (hr : ∀ w ∈ ws, -(2 ^ 31 : Int) ≤ w ∧ w < 2 ^ 31) : parseWeights (joinWeights ws) = some ws := by
-  sorry
+  exact C19L.parseWeights_join ws hne hr
 
 /-- records whose weight count does not match the word length are rejected, all others accepted unchanged -/
 theorem C19_record_check (word : List Char) (weights : List Int) (comment : List Char) :
     (weights.length ≠ word.length + 1 → wordRecordNew word weights comment = .err .invalidArgument) ∧
     (weights.length = word.length + 1 → wordRecordNew word weights comment = .ok ⟨word, weights, comment⟩) := by
-  sorry
+  unfold wordRecordNew
+  constructor <;> intro h <;> simp [h]
 
 /-- dumping the dictionary and replacing it with the unmodified dump reproduces the model, for any words and comments
 (given the CSV contract: the three columns come back as they were written) -/
@@ -36,6 +39,13 @@ theorem C19_dump_replace (m : WModel)
     (hshape : ∀ d ∈ m.dict, d.weights.length = d.word.length + 1)
     (hrange : ∀ d ∈ m.dict, ∀ w ∈ d.weights, -(2 ^ 31 : Int) ≤ w ∧ w < 2 ^ 31) :
     loadRows (m.dict.map dumpRow) = .ok m.dict ∧ m.replaceDict m.dict = m := by
-  sorry
+  exact ⟨C19L.loadRows_dump m.dict hshape hrange, by cases m; rfl⟩
+
+/-- non-vacuity: the extreme `i32` values and a negative number survive the `weights` column -/
+example : parseWeights (joinWeights [-2147483648, 0, 7, 2147483647]) = some [-2147483648, 0, 7, 2147483647] := by
+  decide
+
+/-- non-vacuity: a malformed column and an out-of-range weight are rejected -/
+example : parseWeights "1  2".toList = none ∧ parseWeights "2147483648".toList = none := by decide
 
 end V
